@@ -681,6 +681,29 @@ func verifStageMatrix2(r *gen.Rand) []vsOp {
 		recv(f, 0, len(f.content))
 	}
 	names := [][2]string{{"site/data.bin", "site/next.bin"}, {"a", "b"}, {"g.1", "g.2"}, {"d/e/x", "d/y"}}[r.Intn(4)]
+	if r.Chance(1, 6) {
+		// (f) a validated file is held for its predecessor; the first part of a NEW version of the same
+		// name arrives (the companion now describes the new version, the held body is the old one);
+		// restart; the predecessor arrives
+		A := mk(names[0], "", 2+r.Intn(8))
+		B1 := mk(names[1], names[0], 4+r.Intn(8))
+		B2 := mk(names[1], names[0], 4+r.Intn(8))
+		whole(B1)
+		ops = append(ops, vsOp{kind: "ST"})
+		prep(B2)
+		recv(B2, 0, len(B2.content)/2)
+		if r.Chance(2, 3) {
+			ops = append(ops, vsOp{kind: "RS"}, vsOp{kind: "ST"})
+		}
+		ops = append(ops, vsOp{kind: "SQ", name: B1.name, num: -3600})
+		whole(A)
+		ops = append(ops, vsOp{kind: "ST"}, vsOp{kind: "SQ", name: B1.name, num: -3600})
+		if r.Chance(1, 2) {
+			recv(B2, len(B2.content)/2, len(B2.content))
+			ops = append(ops, vsOp{kind: "ST"}, vsOp{kind: "SQ", name: B1.name, num: -3600})
+		}
+		return ops
+	}
 	if r.Chance(1, 5) {
 		// (e) a stalled partial from an earlier day (later time of day than now) survives a restart:
 		// the range of log days read back starts there; what was delivered TODAY must still be known
